@@ -189,8 +189,9 @@ Proof.
   unfold del_interface_addr, del_tbl.
   destruct (intf_get (i_index i) (d_intfs d)) as [m|] eqn:Eg; [|simpl; auto].
   destruct (has_ifaddr (i_addr i) (mi_addrs m)) eqn:Eh; [|simpl; auto].
-  destruct (is_nil (del_ifaddr (i_addr i) (mi_addrs m))) eqn:En; simpl; [auto|].
-  destruct (negb (family_enabled _ _)); simpl; auto.
+  destruct (is_nil (del_ifaddr (i_addr i) (mi_addrs m))) eqn:En.
+  - destruct (holds_ip _ _); simpl; auto.
+  - destruct (negb (family_enabled _ _)); destruct (holds_ip _ _); simpl; auto.
 Qed.
 
 (* ---- apply_intf_selections ------------------------------------------------------------------------- *)
@@ -316,7 +317,7 @@ Proof.
   cbv zeta. unfold check_ip_changes.
   set (tbl := d_os d).
   set (kept := map _ (d_intfs d)).
-  set (deleted_ips := flat_map _ (d_intfs d)).
+  set (deleted_ips := filter _ (flat_map _ (d_intfs d))).
   set (deleted_intfs := filter _ kept).
   set (d1 := set_intfs kept (d_regs d) d).
   set (d2 := fold_left _ deleted_ips d1).
